@@ -26,7 +26,7 @@ import traceback
 VERIF = os.path.dirname(os.path.dirname(os.path.abspath(__file__)))
 REPO = os.environ.get("VERIF_REPO", "/repo")
 MAX_FAILS_PER_CLASS = 3          # kept per shard per class (counts are exact)
-MAX_REPLAY_CLASSES = 20
+MAX_REPLAY_CLASSES = int(os.environ.get("VERIF_MAXREPLAY", "20"))
 
 
 def jobs():
